@@ -58,8 +58,9 @@ def load_cfg(pid):
 
 
 def known_findings(pid):
+    """Listed findings of this property: known_findings/<pid>.jsonl (committed; never written at run time)."""
     res = {}
-    path = os.path.join(VERIF, "KNOWN_FINDINGS.jsonl")
+    path = os.path.join(VERIF, "known_findings", pid + ".jsonl")
     if os.path.exists(path):
         for line in open(path):
             line = line.strip()
@@ -73,6 +74,13 @@ def known_findings(pid):
 
 # ---------------------------------------------------------------------------------------------
 # Lean side
+
+def ensure_lakefile(cfg):
+    lf = os.path.join(LEAN, "lakefile.toml")
+    want = f'name = "drv_{cfg["driver"].lower()}"'
+    if not os.path.exists(lf) or want not in open(lf).read():
+        sh([sys.executable, os.path.join(VERIF, "tools", "gen_lakefile.py")])
+
 
 DECL = re.compile(r"^\s*(?:@\[[^\]]*\]\s*)?(?:private\s+|protected\s+)?(theorem|lemma|example)\b\s*([^\s:({\[]*)")
 NS = re.compile(r"^\s*namespace\s+(\S+)")
@@ -360,6 +368,7 @@ def main():
         rb = json.load(open(replay))
         seed, tier = rb.get("seed", seed), rb.get("tier", tier)
     cfg = load_cfg(pid)
+    ensure_lakefile(cfg)
     t0 = time.time()
     log = []
     scratch = tempfile.mkdtemp(prefix=f"verif-{pid}-")
@@ -428,7 +437,7 @@ def main():
         for region, cs in sorted(by_region.items()):
             known_lines.append(f"KNOWN-FINDING: property={pid} {kf[region]['what']} [region {region}; {len(cs)} case(s) this run, e.g. {cs[0]['payload'][:160]}]")
         if unknown:
-            c = unknown[0]
+            c = min(unknown, key=lambda c: (len(c.get("payload", "")), c.get("id", "")))
             body = {"property": pid, "kind": "failing-input", "seed": seed, "tier": tier, "case": c,
                     "n_failing_cases": len(unknown), "broken": broken,
                     "replay": f"tools/check.py {pid} --replay <this file>  (re-runs seed {seed}, tier {tier}; the case payload is the input)"}
